@@ -639,7 +639,7 @@ def hash_keys(seed, n):
 def new_stats():
     return dict(components_checked=0, components_unchecked=0, components_budget=0, ops_checked=0,
                 ops_unchecked=0, search_nodes=0, lock_events=0, sections=0, sections_matched=0,
-                exists_checked=0, unmodelled=set(), ops_total=0, phases=[], commands=set(), screened={}, nontrivial=set())
+                exists_checked=0, unmodelled=set(), ops_total=0, phases=[], commands=set(), screened={}, nontrivial=set(), slow_phases=[], unreproduced_timing=[])
 
 
 def run_workload(out, seed, tier, phases, skip, race=False, tcp=False, threads=None, nops=None, timeout=900, focus=None):
@@ -726,7 +726,10 @@ def hang_report(phase, d):
     d = Path(d)
     txt = (d / "hang.txt").read_text() if (d / "hang.txt").exists() else ""
     blocked = re.findall(r"goroutine \d+ \[(?:sync\.(?:RW)?Mutex\.R?Lock|semacquire)[^\]]*\]:\n(?:.+\n){1,12}", txt)
+    blocked = [b for b in blocked if "Mutex" in b and "WaitGroup" not in b]
+    head = txt.split("\n", 1)[0] if txt else ""
     log = (d / "locklog.txt").read_text().splitlines() if (d / "locklog.txt").exists() else []
     return dict(kind="did-not-finish", phase=phase,
-                note="the workload did not complete within the watchdog: deadlock (or a panic while holding a lock)",
+                note="no command completed during a whole watchdog window while goroutines are blocked acquiring a lock: deadlock (or a panic while holding a lock)",
+                progress=head,
                 blocked_goroutines=[b[:900] for b in blocked[:8]], lock_log_tail=log[-60:])
